@@ -21,6 +21,7 @@ import (
 	"runtime"
 	"strconv"
 	"strings"
+	"sync"
 	"syscall"
 	"time"
 
@@ -33,7 +34,9 @@ import (
 	"github.com/emitter-io/emitter/internal/provider/storage"
 	"github.com/emitter-io/emitter/internal/security"
 	"github.com/emitter-io/emitter/internal/security/license"
+	"github.com/emitter-io/emitter/internal/service"
 	"github.com/emitter-io/emitter/internal/service/cluster"
+	"github.com/emitter-io/emitter/internal/service/survey"
 	"github.com/emitter-io/emitter/internal/zzverif/vlib"
 	"github.com/golang/snappy"
 	"github.com/weaveworks/mesh"
@@ -610,6 +613,162 @@ func liveCase(seed int64, n int, sh *vlib.Shards, key string) {
 		map[string]interface{}{"op": "live broker under attack", "attacks": n, "alive": alive, "canary_ok": canaryOK, "connections_back_to_baseline": connsBack, "max_sys_bytes": maxSys, "last_attack": last, "last_attack_kind": kind}, "live", true)
 }
 
+// ---- a client that stops reading ---------------------------------------------------------------------
+
+// stallConn is a client connection whose peer never takes a byte: a write to it blocks until the write
+// deadline set by the broker (or for ever when there is none).  Time runs 400 times faster than the
+// broker's clock, so that a 120 s deadline elapses in 300 ms.  Reads deliver a scripted session and then
+// a PINGREQ every 50 ms - the client is not idle, it just does not read.
+type stallConn struct {
+	mu        sync.Mutex
+	script    [][]byte
+	rd, wd    time.Time
+	closed    chan struct{}
+	once      sync.Once
+	unbounded int // writes that started with no write deadline in force
+}
+
+type timeoutErr struct{}
+
+func (timeoutErr) Error() string   { return "i/o timeout" }
+func (timeoutErr) Timeout() bool   { return true }
+func (timeoutErr) Temporary() bool { return true }
+
+func scaled(t time.Time) time.Duration { return time.Until(t) / 400 }
+
+func (c *stallConn) Read(p []byte) (int, error) {
+	c.mu.Lock()
+	var next []byte
+	if len(c.script) > 0 {
+		next, c.script = c.script[0], c.script[1:]
+	}
+	c.mu.Unlock()
+	if next == nil {
+		select {
+		case <-c.closed:
+			return 0, io.EOF
+		case <-time.After(50 * time.Millisecond):
+		}
+		next = []byte{0xc0, 0x00} // PINGREQ
+	}
+	return copy(p, next), nil
+}
+
+func (c *stallConn) Write(p []byte) (int, error) {
+	c.mu.Lock()
+	wd := c.wd
+	if wd.IsZero() {
+		c.unbounded++
+	}
+	c.mu.Unlock()
+	if wd.IsZero() {
+		<-c.closed
+		return 0, io.ErrClosedPipe
+	}
+	select {
+	case <-c.closed:
+		return 0, io.ErrClosedPipe
+	case <-time.After(scaled(wd)):
+		return 0, timeoutErr{}
+	}
+}
+func (c *stallConn) Close() error         { c.once.Do(func() { close(c.closed) }); return nil }
+func (c *stallConn) LocalAddr() net.Addr  { return &net.TCPAddr{} }
+func (c *stallConn) RemoteAddr() net.Addr { return &net.TCPAddr{} }
+func (c *stallConn) SetDeadline(t time.Time) error {
+	c.mu.Lock()
+	c.rd, c.wd = t, t
+	c.mu.Unlock()
+	return nil
+}
+func (c *stallConn) SetReadDeadline(t time.Time) error {
+	c.mu.Lock()
+	c.rd = t
+	c.mu.Unlock()
+	return nil
+}
+func (c *stallConn) SetWriteDeadline(t time.Time) error {
+	c.mu.Lock()
+	c.wd = t
+	c.mu.Unlock()
+	return nil
+}
+
+// stalled: a subscriber that never reads is attached to a real broker; a publisher sends to its channel.
+// The broker must give the stalled connection up (close it) and the publisher must be served.
+func stalled(svc *broker.Service, key string) (gaveUp, publisherServed bool) {
+	sc := &stallConn{closed: make(chan struct{}), script: [][]byte{
+		enc(&mqtt.Connect{ProtoName: []byte("MQTT"), Version: 4, ClientID: []byte("stall")}),
+		enc(&mqtt.Subscribe{Header: mqtt.Header{QOS: 1}, MessageID: 1, Subscriptions: []mqtt.TopicQOSTuple{{Topic: []byte(key + "/a/stall/")}}}),
+	}}
+	svc.VerifAttach(sc)
+	time.Sleep(100 * time.Millisecond)
+	pub := newClient(svc)
+	pub.write(enc(&mqtt.Connect{ProtoName: []byte("MQTT"), Version: 4, ClientID: []byte("pub")}))
+	done := make(chan struct{})
+	go func() {
+		for i := 0; i < 20; i++ {
+			pub.write(enc(&mqtt.Publish{Header: mqtt.Header{QOS: 0}, Topic: []byte(key + "/a/stall/"), Payload: bytes.Repeat([]byte{7}, 2000)}))
+		}
+		pub.write(enc(&mqtt.Pingreq{}))
+		close(done)
+	}()
+	select {
+	case <-sc.closed:
+		gaveUp = true
+	case <-time.After(4 * time.Second):
+	}
+	select {
+	case <-done:
+		publisherServed = true
+	case <-time.After(2 * time.Second):
+	}
+	sc.Close()
+	pub.conn.Close()
+	return
+}
+
+// ---- survey answers ------------------------------------------------------------------------------------
+
+type surveyGossip struct{ peers int }
+
+func (g surveyGossip) ID() uint64                                   { return 1 }
+func (g surveyGossip) NumPeers() int                                { return g.peers }
+func (g surveyGossip) SendTo(mesh.PeerName, *message.Message) error { return nil }
+
+type surveyPubSub struct{}
+
+func (surveyPubSub) Publish(*message.Message, func(message.Subscriber) bool) int64 { return 0 }
+func (surveyPubSub) Subscribe(message.Subscriber, *event.Subscription) bool        { return true }
+func (surveyPubSub) Unsubscribe(message.Subscriber, *event.Subscription) bool      { return true }
+func (surveyPubSub) Handle(string, service.Handler)                                {}
+
+// lateAnswers: a survey among [peers] brokers gets [early] answers and times out; then [late] frames
+// carrying its query id arrive from a peer.  Handling them must return (the goroutine serving that
+// peer's connection must not block).
+func lateAnswers(peers, early, late int) bool {
+	s := survey.New(surveyPubSub{}, surveyGossip{peers})
+	aw, _ := s.Query("q", nil)
+	answer := func() { s.Send(message.New(message.Ssid{0, 3939663052, 1}, []byte("response"), []byte("x"))) }
+	for i := 0; i < early; i++ {
+		answer()
+	}
+	aw.Gather(30 * time.Millisecond)
+	done := make(chan struct{})
+	go func() {
+		for i := 0; i < late; i++ {
+			answer()
+		}
+		close(done)
+	}()
+	select {
+	case <-done:
+		return true
+	case <-time.After(2 * time.Second):
+		return false
+	}
+}
+
 // ---- main ---------------------------------------------------------------------------------------
 
 func main() {
@@ -737,6 +896,18 @@ func main() {
 			map[string]interface{}{"op": "raw payload to a gossip handler", "kind": kind, "bytes": len(raw), "class": class, "alloc": alloc}, kind, true)
 	}
 
+	// 3b. a subscriber that stops reading; late and surplus survey answers
+	for i := 0; i < 2; i++ {
+		gaveUp, served := stalled(svc, key)
+		sh.Add(vlib.App("CStall", vlib.Bool(gaveUp), vlib.Bool(served)),
+			map[string]interface{}{"op": "subscriber that never reads", "closed_by_broker": gaveUp, "publisher_served": served}, "stalled-subscriber", true)
+	}
+	for _, x := range [][3]int{{1, 0, 3}, {2, 1, 6}, {3, 0, 10}, {2, 2, 5}, {0, 0, 4}} {
+		ok := lateAnswers(x[0], x[1], x[2])
+		sh.Add(vlib.App("CSurvey", vlib.N(uint64(x[0])), vlib.N(uint64(x[1])), vlib.N(uint64(x[2])), vlib.Bool(ok)),
+			map[string]interface{}{"op": "survey answers after the survey ended", "peers": x[0], "early": x[1], "late": x[2], "handled": ok}, "survey/late-answers", true)
+	}
+
 	// 4. the live broker in a child process
 	nLive := 400 * cfg.Mult
 	if cfg.Thorough() {
@@ -744,5 +915,5 @@ func main() {
 	}
 	liveCase(cfg.Seed, nLive, sh, key)
 
-	sh.Finish("hostile MQTT streams (sessions truncated, bit-flipped, with inflated / deflated remaining lengths and string lengths, long length continuations, short bodies for every packet type, random bytes) through the DecodePacket loop with four size limits; history limits around the pre-allocation cap; snappy-wrapped hostile unicast frames and gossip states (short ids / keys / values, inflated counts and length prefixes up to 2^64-1, truncations, random) and raw payloads through the real Swarm handlers with a real Service behind OnMessage; one live broker child (address-space ceiling 6 GiB) attacked over hundreds of connections incl. well-formed requests with extreme parameters, with a canary client; non-trivial: non-empty inputs")
+	sh.Finish("hostile MQTT streams (sessions truncated, bit-flipped, with inflated / deflated remaining lengths and string lengths, long length continuations, short bodies for every packet type, random bytes) through the DecodePacket loop with four size limits; history limits around the pre-allocation cap; snappy-wrapped hostile unicast frames and gossip states (short ids / keys / values, inflated counts and length prefixes up to 2^64-1, truncations, random) and raw payloads through the real Swarm handlers with a real Service behind OnMessage; a subscriber that never reads (write deadline, time scaled 400x) and a publisher to its channel; survey answers arriving after the survey ended; one live broker child (address-space ceiling 6 GiB) attacked over hundreds of connections incl. well-formed requests with extreme parameters, with a canary client; non-trivial: non-empty inputs")
 }
